@@ -1,5 +1,6 @@
 """C19 — app hashing and one-time signing bind to the application's actual code."""
 import hashlib
+import json
 import io
 import os
 import sys
@@ -106,6 +107,20 @@ def run(ctx):
                 res["samples"].append({"areas": [(hex(a), len(d)) for a, d in areas], "sizes": sizes,
                                        "order": order, "hash": want.hex()})
             written.append((path, want))
+            if w == 0:
+                # the hash embedded in authorization messages - also when the output file is left over
+                # from an earlier image (the build scripts always write to the same path)
+                out_auth = os.path.join(tmp, "signer_auth.json")
+                it = rng.randrange(65536)
+                code, out = run_main(signapp, ["signapp", "message", "-a", path, "-i", str(it), "-o", out_auth])
+                try:
+                    got = json.load(open(out_auth))["signer"]
+                except Exception:
+                    got = None
+                if code != 0 or got is None or got.get("hash") != want.hex() or str(got.get("iteration")) != str(it):
+                    res["violations"].append({"key": "C19:signapp-message", "what": "`signapp message -o` wrote "
+                                              "%r for an image whose hash is %s, iteration %d (the output file "
+                                              "existed before: %s)" % (got, want.hex(), it, len(written) > 1)})
         if len(hashes) != 1:
             res["violations"].append({"key": "C19:hash-depends-on-records", "what": "the same image hashes "
                                       "differently depending on record sizes / order"})
@@ -119,7 +134,12 @@ def run(ctx):
         os.makedirs(rd, exist_ok=True)
         local = []
         for j, (p, h) in enumerate(apps):
-            q = os.path.join(rd, "app%d.hex" % j)
+            if r % 2:
+                # one directory per application, every image called app.hex (the stock build layout)
+                os.makedirs(os.path.join(rd, "app%d" % j, "bin"), exist_ok=True)
+                q = os.path.join(rd, "app%d" % j, "bin", "app.hex")
+            else:
+                q = os.path.join(rd, "app%d.hex" % j)
             shutil.copy(p, q)
             local.append((q, h))
         pub_path = os.path.join(rd, "pub.txt")
